@@ -27,3 +27,13 @@ package builtin
 //@   callsite[C20] NewDefineBuiltinMethod a_frame == classDef.Frame && a_class == classDef.Class && !base.IsNameSpace(a_class)
 //@ writers[C20] ti/builtin.ClassDefinition.Frame -
 //@ writers[C20] ti/builtin.ClassDefinition.Class -
+
+//@ # ---- C07: every declared parameter type is marked as configured ----
+//@ # (the call-site propagation widens a parameter type that lacks the mark instead of checking
+//@ # the argument against it, so a mismatch would go unreported)
+//@ func ti/builtin.parseArguments
+//@   sitesonly
+//@   inline 4 1
+//@   # (the inner append collects the variants of a multi-type parameter; `t` is its loop variable)
+//@   callsite[C07] append !inscope(t) ==> baseType.isBuiltin
+//@   callsite[C07] MakeKeyValue a_valueT.isBuiltin
